@@ -49,3 +49,21 @@ Print Assumptions C16_execute_core_passthrough.
 Theorem C16_execute_core_fresh_aux : forall (ctor_prg : list stmt) (ins : list pred) (prg out : list stmt) (st' : unames), execute_core_state ctor_prg ins prg = Ok (out, st') -> exists (blks : list (list stmt)) (auxs : list pred), exec_trace (init_names ctor_prg ins) prg blks auxs st' /\ out = List.concat blks /\ NoDup auxs /\ (forall p : pred, In p auxs -> ~ In p (known (init_names ctor_prg ins)) /\ ~ In p ins /\ (forall s : stmt, In s ctor_prg -> ~ In p (map snd (Traverse.predicates Traverse.all_signs s))) /\ (exists k : nat, fst p = (Names.AUX_FUNC ++ string_of_nat k)%string)) /\ incl auxs (known st').
 Proof. exact (@execute_core_fresh_aux_proof). Qed.
 Print Assumptions C16_execute_core_fresh_aux.
+
+From NGO Require Import Syntax.Ast Sem.Sym Sem.Sat Model.Projection Link.Ground Link.ProjectionSem.
+
+Theorem C16_projection_split_sound : forall (sym_lt : sym -> sym -> Prop) (aux : string) (ts : list string) (P1 P2 : program) (line line' : nat) (h : head) (B New Rest : list bodyelem), let p := (aux, Datatypes.length ts) in let auxl := Lit NoSign (ASym (TFun aux (map TVar ts) false)) in let P := P1 ++ (SRule line h B :: nil) ++ P2 in let Q := P1 ++ (SRule line' (HLit auxl) New :: SRule line h (Rest ++ BLit auxl :: nil) :: nil) ++ P2 in simple_prog P = true -> prog_avoids p P = true -> Permutation B (New ++ Rest) -> (forall x : string, In x (flat_map vars_bodyelem New) -> In x (flat_map vars_bodyelem Rest) \/ In x (vars_head h) -> In x ts) -> cons_ext sym_lt (fun q : string * nat => q <> p) (fun a : gatom => ~ (fst a = aux /\ Datatypes.length (snd a) = Datatypes.length ts)) P Q.
+Proof. exact (@projection_split_sound). Qed.
+Print Assumptions C16_projection_split_sound.
+
+Theorem C16_project_rule_sound : forall (sym_lt : sym -> sym -> Prop) (st st' : Globals.unames) (P1 P2 : program) (line : nat) (h : head) (b : list bodyelem) (out : list stmt), let stm := SRule line h b in let P := P1 ++ (stm :: nil) ++ P2 in simple_prog P = true -> ~ In "_" (vars_stmt stm) -> project_rule st stm = Ok (out, st') -> out = stm :: nil \/ (exists (a : string) (t : list string) (new rest : list bodyelem), out = SRule LOC_line (HLit (ProjectionSpec.aux_head a t)) new :: SRule line h (rest ++ BLit (ProjectionSpec.aux_head a t) :: nil) :: nil /\ ~ In (a, Datatypes.length t) (Globals.known st) /\ (prog_avoids (a, Datatypes.length t) P = true -> cons_ext sym_lt (fun q : string * nat => q <> (a, Datatypes.length t)) (fun g : gatom => ~ (fst g = a /\ Datatypes.length (snd g) = Datatypes.length t)) P (P1 ++ out ++ P2))).
+Proof. exact (@project_rule_sound). Qed.
+Print Assumptions C16_project_rule_sound.
+
+Theorem C16_project_rule_sound_known : forall (sym_lt : sym -> sym -> Prop) (st st' : Globals.unames) (P1 P2 : program) (line : nat) (h : head) (b : list bodyelem) (out : list stmt), let stm := SRule line h b in let P := P1 ++ (stm :: nil) ++ P2 in simple_prog P = true -> forallb fun_stmt P = true -> (forall (s0 : stmt) (q : pred), In s0 P -> In q (map snd (Traverse.predicates Traverse.all_signs s0)) -> In q (Globals.known st)) -> ~ In "_" (vars_stmt stm) -> project_rule st stm = Ok (out, st') -> out = stm :: nil \/ (exists (a : string) (k : nat), ~ In (a, k) (Globals.known st) /\ cons_ext sym_lt (fun q : string * nat => q <> (a, k)) (fun g : gatom => ~ (fst g = a /\ Datatypes.length (snd g) = k)) P (P1 ++ out ++ P2)).
+Proof. exact (@project_rule_sound_known). Qed.
+Print Assumptions C16_project_rule_sound_known.
+
+Theorem C16_anonymous_variable_counterexample : forall sym_lt : sym -> sym -> Prop, ~ cons_ext sym_lt (fun q : string * nat => q <> ("__aux_1", 0)) (fun g : gatom => ~ (fst g = "__aux_1" /\ Datatypes.length (snd g) = 0)) (Example.r2 :: nil) (Example.r2_aux :: Example.r2_upd :: nil).
+Proof. exact (@Example.anonymous_variable_counterexample). Qed.
+Print Assumptions C16_anonymous_variable_counterexample.
